@@ -121,3 +121,24 @@ package scheduler
 // that moment, does not report the blob as complete on disk.
 // (the call-site rule drops_completed_control_only_if_evicted is part of the contract of
 // newTorrentEvent.apply above)
+
+// ---- C17: stopping --------------------------------------------------------------------------------
+// Stop hands the shutdown to the event loop as an event (shutdownEvent.apply answers every waiter
+// before it stops the loop, all_answered above) and waits; it never stops the loop itself - a Stop
+// that gave up on a busy loop and stopped it directly would leave pending Download calls without
+// an answer.
+//@ func scheduler.Stop$1
+//@   requires s != nil && s.eventLoop != nil
+//@   modifies *
+//@   forbids eventLoop.stop
+//@   assert shutdown_goes_through_the_loop: at eventLoop.send#0 :: true
+
+// ---- C16: the mutual-connection limit sees every neighbour the remote peer reported -------------
+// An incoming handshake is admitted through AddPending with exactly the peers of its remote
+// bitfields as neighbours, whether or not the torrent is loaded in the scheduler.
+//@ func incomingHandshakeEvent.apply
+//@   requires s != nil && cinv(s.conns) && e.pc != nil && e.pc.handshake != nil && s.torrentControls != nil && s.sched != nil
+//@   modifies *
+//@   assert limit_sees_all_neighbours: at State.AddPending#0 :: len(arg3) == len(e.pc.handshake.remoteBitfields) && (forall k core.PeerID :: (k in e.pc.handshake.remoteBitfields) ==> (exists j int :: 0 <= j && j < len(arg3) && arg3[j] == k))
+//@   loop 0 invariant filled: i == nseen0 && 0 <= i && i <= len(peerNeighbors) && len(peerNeighbors) == len(e.pc.handshake.remoteBitfields) && cinv(s.conns) && e.pc.handshake == entry(e.pc.handshake)
+//@   loop 0 invariant seen_are_listed: forall k core.PeerID :: seen0(k) ==> (exists j int :: 0 <= j && j < i && peerNeighbors[j] == k)
